@@ -247,6 +247,9 @@ def compare(obs, ref):
                 rel = np.where(same, 0.0, np.nan_to_num(rel, nan=1.0))
                 if rel.max() >= worst:
                     worst, wf = float(rel.max()), n
+        if wf is None and obs.get("jumps") != ref.get("jumps"):
+            wf, worst = "jumps (reported discontinuity locations)", 1.0
+            d.update(jumps_observed=obs.get("jumps"), jumps_reference=ref.get("jumps"))
         d.update(field=wf, max_rel_diff=worst)
     else:
         d.update(obs_type=obs.get("type"), ref_type=ref.get("type"), obs_msg=obs.get("msg"), ref_msg=ref.get("msg"))
